@@ -505,4 +505,13 @@ example :
     exRun { exGood with sub := StrClaim.val "bob" } = .invalidClaims := by
   decide
 
+set_option maxRecDepth 100000 in
+/-- after construction only the JWKS location and key set are ever written: the accepted issuers, aliases, audience
+and subjects come from the configuration alone (a discovery document cannot widen them) -/
+theorem tie_oidc_field_writes : Gen.Authn.oidcFieldWrites =
+    ["NewRemoteOidcAuthenticator: client.Logger = nil",
+     "NewRemoteOidcAuthenticator: oidc.ClientIDClaims = []string{\"azp\", \"client_id\"}",
+     "fetchJWK: oidc.JwksURI = oidcConfig.JWKsURI",
+     "fetchJWK: oidc.JWKs = jwks"] := by decide
+
 end OpenFGAVerif.C27
